@@ -39,6 +39,7 @@ def _model_digest(m):
 
 
 _ONES = np.ones((30, 32))
+_ESTDATA = np.concatenate([np.linspace(4.0, 6.0, 60), [500.0, -300.0]])
 
 
 def _aper_digest(a):
@@ -79,6 +80,11 @@ def _digest_any(o):
         return ('aper', _aper_digest(o))
     if hasattr(o, 'param_names'):
         return ('model', _model_digest(o))
+    if mod.startswith('photutils.background') and hasattr(o, 'sigma_clip'):
+        # a background / RMS estimator: its settings and what it returns
+        v = call(o, _ESTDATA)
+        return ('estimator', name, repr(o.sigma_clip),
+                'raised' if isinstance(v, Raised) else repr(float(v)))
     if name == 'EPSFStars':
         return ('epsfstars', o.n_all_stars, o.n_good_stars,
                 [(buffer_digest(np.asarray(s.data)),
@@ -569,6 +575,19 @@ class InputsMachine(Machine):
                                           BkgZoomInterpolator)
         P = st.P
         v = op['variant']
+        if 'bkg_est' not in P:
+            # estimator objects the caller built (with their own clipping)
+            # and may well use on their own afterwards
+            from photutils.background import (MedianBackground,
+                                              StdBackgroundRMS)
+            P['bkg_est'] = MedianBackground(sigma_clip=SigmaClip(3.0))
+            P['bkgrms_est'] = StdBackgroundRMS(sigma_clip=SigmaClip(3.0))
+            st.d0['bkg_est'] = _digest_any(P['bkg_est'])
+            st.d0['bkgrms_est'] = _digest_any(P['bkgrms_est'])
+        ekw = {}
+        if op.get('opt', 0) in (2, 3):
+            ekw = {'bkg_estimator': P['bkg_est'],
+                   'bkgrms_estimator': P['bkgrms_est']}
         out = self._run(st, op, lambda: Background2D(
             data, P['pair_arr'] if op.get('opt', 0) == 7 else
             [tuple(data.shape), (10, 8), 7, (10, data.shape[1]),
@@ -581,7 +600,7 @@ class InputsMachine(Machine):
             sigma_clip=None if op.get('opt', 0) == 5 else SigmaClip(3.0),
             interpolator=(BkgIDWInterpolator() if op.get('opt', 0) == 4
                           else BkgZoomInterpolator()),
-            exclude_percentile=50.0))
+            exclude_percentile=50.0, **ekw))
         self._keep(st, 'bkg2d', out, op)
         return out
 
